@@ -7,11 +7,11 @@ CONSTANTS
   Cap = 3
   Sizes = {2, 3}
   NameSet = {"f"}
-  ModSet = {"a", "b"}
+  ModSet = {"a"}
   Maxes = {5}
   ExSets = {{"a"}}
   TsSet = {100}
-  CtlOps = {"enable", "disable", "exempt"}
+  CtlOps = {"enable", "disable", "max"}
   Dir0 = 1
 SPECIFICATION MSpec
 SYMMETRY Sym
